@@ -122,6 +122,30 @@ func measureLatency(d time.Duration, rearm bool) int64 {
 	}
 }
 
+// measureLatencyAfterPause: Reset(d), receive (Read set), pause p < d, Reset(d)
+// again: the second tick too comes no sooner than d after ITS Reset.
+func measureLatencyAfterPause(d, p time.Duration) int64 {
+	t := timeutil.NewTimer()
+	defer t.Stop()
+	t.Reset(d)
+	select {
+	case <-t.C:
+		t.Read = true
+	case <-time.After(d + 3*time.Second):
+		return -1
+	}
+	time.Sleep(p)
+	start := time.Now()
+	t.Reset(d)
+	select {
+	case <-t.C:
+		t.Read = true
+		return int64(time.Since(start))
+	case <-time.After(d + 3*time.Second):
+		return -1
+	}
+}
+
 var opCoq = map[string]string{"Rs": "HReset true", "Rz": "HReset true", "Rn": "HReset true", "Rl": "HReset false", "W": "HWait", "T": "HTryRecv", "S": "HStop"}
 
 func main() {
@@ -270,6 +294,10 @@ func main() {
 		for _, rearm := range []bool{false, true} {
 			lats = append(lats, latCase{int64(d), measureLatency(d, rearm)})
 		}
+	}
+	for _, dp := range [][2]time.Duration{{30 * time.Millisecond, 10 * time.Millisecond}, {30 * time.Millisecond, 25 * time.Millisecond},
+		{12 * time.Millisecond, 6 * time.Millisecond}, {5 * time.Millisecond, 4900 * time.Microsecond}} {
+		lats = append(lats, latCase{int64(dp[0]), measureLatencyAfterPause(dp[0], dp[1])})
 	}
 	nl := 10
 	if *tier == "thorough" {
